@@ -132,7 +132,7 @@ def run(ctx):
     t0 = time.time()
     rng = ctx.rng.fork("c07-onchain")
     tier = "quick" if ctx.tier == "quick" else "thorough"
-    count = 600 if ctx.tier == "quick" else 40000
+    count = 600 if ctx.tier == "quick" else 20000
     first = 1 + rng.below(10 ** 9)
     recs, missing = _run_parallel(ctx, first, count, tier, min(core.NPROC, 14))
     ctx.timed("onchain_s", time.time() - t0)
